@@ -196,7 +196,7 @@ def _proj_scalar(kind, v):
         return int(v)
     if kind == "f":
         return repr(float(v))
-    if kind == "q":
+    if kind in ("q", "L"):
         return [int(x) for x in (v.tolist() if hasattr(v, "tolist") else v)]
     if hasattr(v, "to_string"):
         return v.to_string()
